@@ -393,6 +393,10 @@ def run(chk, ctx):
     r2(chk, ctx)
     r3(chk, ctx)
     r4(chk, ctx)
+    # StateEntered is suppressed whenever $$.State.RetryCount is set: the retry counters must therefore never
+    # travel from a retried state into its successor or into the branch states of a retried fan-out (C07.R4)
+    from . import c07
+    c07.r4(chk, ctx, ctx.protocol(), ctx.mod("state_engine"))
     r5(chk, ctx)
     chk.assume("state Types range over the J2119 schema's list (C18.R1 checks the engine has a handler for each)")
     chk.assume("a handler asl_state_X (and its delegate / nested callbacks) only runs with state_type == X (prefix dispatch)")
